@@ -202,7 +202,19 @@ def _(I, ctx, n): return VecV([])
 def _(I, ctx, r, s):
     v = deref(s); deref(r).items.extend(v.items() if isinstance(v, SliceV) else (v.b if isinstance(v, StrV) else v)); return UNIT
 @model('re:^<\\[.*\\] as PartialEq>::eq$|^<Vec<u8> as PartialEq>::eq$')
-def _(I, ctx, a, b): raise Unsupported('slice eq')
+def _(I, ctx, a, b):
+    def items(v):
+        v = deref(v)
+        while isinstance(v, Ref): v = v.get()
+        return v.items if isinstance(v, VecV) else (v.items() if isinstance(v, SliceV) else (v.b if isinstance(v, StrV) else v))
+    x, y = items(a), items(b)
+    if len(x) != len(y): return False
+    conds = []
+    for p, q in zip(x, y):
+        if p.conc() and q.conc():
+            if p.e != q.e: return False
+        else: conds.append(p.z() == q.z())
+    return z3.And(conds) if conds else True
 @model('<&tokens::tokenizer::Kind as Into<&str>>::into')
 def _(I, ctx, r):
     fn = [f for n, f in I.fns.items() if 'tokenizer.rs:15:45' in n and n.endswith('::from')][0]
